@@ -235,6 +235,12 @@ pub fn trace_json(trace: &[Event], node_id: &dyn Fn(&str) -> Option<usize>) -> R
         out.push(match e {
             Event::Run(t) => json!(["run", t]),
             Event::Wake(t) => json!(["wake", t]),
+            Event::Note(t, s) if s.starts_with("state ") => {
+                // "state <pending> <busy> <best score | -> <executed> <bound> <no-solution> <infeasible> <feasible> <new-best>"
+                let f: Vec<&str> = s.split(' ').collect();
+                let n = |i: usize| f.get(i).and_then(|x| x.parse::<u64>().ok());
+                json!(["state", t, [n(1), n(2), n(4), n(5), n(6), n(7), n(8), n(9)], f.get(3).and_then(|x| x.parse::<u64>().ok())])
+            }
             Event::Note(t, s) => {
                 // "pop <node debug> solve|bound"
                 let what = if s.ends_with(" solve") { "solve" } else { "bound" };
